@@ -120,9 +120,13 @@ func newKey(out *sink, p pset, seed [32]byte) *keyCtx {
 }
 
 func (kc *keyCtx) verifyEv(mp, sig []byte, kind string) bool {
-	var err error
-	pan, pv := vt.Try(func() { err = h.MLDSAVerifyInternal(kc.pk, mp, sig) })
-	e := vt.Ev{"ev": "verify", "set": kc.name, "route": "internal", "kind": kind, "pk": vt.Hex(kc.pkB), "mp": vt.Hex(mp), "sig": vt.Hex(sig), "ok": err == nil && !pan, "panic": pan}
+	var err, err2 error
+	pkH, mpH, sigH := vt.Hex(kc.pkB), vt.Hex(mp), vt.Hex(sig) // inputs as they were BEFORE the call
+	pan, pv := vt.Try(func() {
+		err = h.MLDSAVerifyInternal(kc.pk, mp, sig)
+		err2 = h.MLDSAVerifyInternal(kc.pk, mp, sig) // verification is repeatable on the same buffers
+	})
+	e := vt.Ev{"ev": "verify", "set": kc.name, "route": "internal", "kind": kind, "pk": pkH, "mp": mpH, "sig": sigH, "ok": err == nil && !pan, "ok2": err2 == nil && !pan, "panic": pan}
 	if pan {
 		e["panicVal"] = fmt.Sprint(pv)
 	}
@@ -138,18 +142,20 @@ func verifyWithPk(out *sink, p pset, pkB, mp, sig []byte, kind string) {
 		return
 	}
 	var verr error
+	pkH, mpH, sigH := vt.Hex(pkB), vt.Hex(mp), vt.Hex(sig)
 	pan, _ := vt.Try(func() { verr = h.MLDSAVerifyInternal(pk, mp, sig) })
-	out.Emit(vt.Ev{"ev": "verify", "set": p.name, "route": "internal", "kind": kind, "pk": vt.Hex(pkB), "mp": vt.Hex(mp), "sig": vt.Hex(sig), "ok": verr == nil && !pan, "panic": pan})
+	out.Emit(vt.Ev{"ev": "verify", "set": p.name, "route": "internal", "kind": kind, "pk": pkH, "mp": mpH, "sig": sigH, "ok": verr == nil && !pan, "panic": pan})
 }
 
 func (kc *keyCtx) signEv(mp []byte, rnd [32]byte, kind string) []byte {
 	var res []byte
+	skH, mpH, rndH := vt.Hex(kc.skB), vt.Hex(mp), vt.Hex(rnd[:])
 	pan, hung := guarded(func() { res = h.MLDSASignInternal(kc.sk, mp, rnd) })
 	var sig []byte
 	if !hung {
 		sig = res
 	}
-	kc.out.Emit(vt.Ev{"ev": "sign", "set": kc.name, "route": "internal", "kind": kind, "sk": vt.Hex(kc.skB), "mp": vt.Hex(mp), "rnd": vt.Hex(rnd[:]), "sig": vt.Hex(sig), "panic": pan, "hung": hung})
+	kc.out.Emit(vt.Ev{"ev": "sign", "set": kc.name, "route": "internal", "kind": kind, "sk": skH, "mp": mpH, "rnd": rndH, "sig": vt.Hex(sig), "panic": pan, "hung": hung})
 	return sig
 }
 
@@ -543,6 +549,7 @@ func (pk *pubKey) ev(name string) vt.Ev {
 func (pk *pubKey) sign(msg []byte, kind string) []byte {
 	var res []byte
 	var rerr error
+	msgH := vt.Hex(msg)
 	pan, hung := guarded(func() { res, rerr = pk.signer.Sign(msg) })
 	var sig []byte
 	var err error
@@ -551,17 +558,123 @@ func (pk *pubKey) sign(msg []byte, kind string) []byte {
 	}
 	e := pk.ev("signed")
 	e["seed"], e["keyVariant"] = vt.Hex(pk.seed), pk.variant
-	e["kind"], e["msg"], e["sig"], e["err"], e["panic"], e["hung"] = kind, vt.Hex(msg), vt.Hex(sig), err != nil, pan, hung
+	e["kind"], e["msg"], e["sig"], e["err"], e["panic"], e["hung"] = kind, msgH, vt.Hex(sig), err != nil, pan, hung
 	pk.out.Emit(e)
 	return sig
 }
 
 func (pk *pubKey) verify(sig, msg []byte, kind string) {
-	var err error
-	pan, _ := vt.Try(func() { err = pk.verifier.Verify(sig, msg) })
+	var err, err2 error
+	msgH, sigH := vt.Hex(msg), vt.Hex(sig)
+	pan, _ := vt.Try(func() {
+		err = pk.verifier.Verify(sig, msg)
+		err2 = pk.verifier.Verify(sig, msg)
+	})
 	e := pk.ev("pverify")
-	e["kind"], e["msg"], e["sig"], e["ok"], e["panic"] = kind, vt.Hex(msg), vt.Hex(sig), err == nil && !pan, pan
+	e["kind"], e["msg"], e["sig"], e["ok"], e["ok2"], e["panic"] = kind, msgH, sigH, err == nil && !pan, err2 == nil && !pan, pan
 	pk.out.Emit(e)
+}
+
+// scribble overwrites a driver-owned input buffer after a call returned.
+func scribble(b []byte) {
+	for i := range b {
+		b[i] = 0xA5
+	}
+}
+
+// retained exercises one signer/verifier (and, for prehash-capable keys, one Prehash / PrehashSigner) the way
+// a caller that keeps results around does: all messages travel through ONE driver-owned buffer that is
+// scribbled after every call; every output is copied at return AND retained, and is only used (signed,
+// verified, logged) after later calls on the same primitive, in a different order. Both the copy taken at
+// return and the retained slice's content at the time of use are logged; the reference judges the latter.
+func (pk *pubKey) retained(r *rand.Rand, pre tink.Prehash, ps tink.PrehashSigner) {
+	const n = 3
+	buf := make([]byte, 0, 2048)
+	msgs := make([][]byte, n)
+	for i := range msgs {
+		msgs[i] = msgOf(r, i+2)
+		if len(msgs[i]) == 0 {
+			msgs[i] = []byte{byte(i)}
+		}
+	}
+	order := []int{2, 0, 1}
+	// ---- ordinary signer: sign all, then verify all
+	sigs, sigs0 := make([][]byte, n), make([][]byte, n)
+	fail := make([]vt.Ev, n)
+	for i := range msgs {
+		in := append(buf[:0], msgs[i]...)
+		var res []byte
+		var rerr error
+		pan, hung := guarded(func() { res, rerr = pk.signer.Sign(in) })
+		if !hung && !pan && rerr == nil {
+			sigs[i], sigs0[i] = res, clone(res)
+		}
+		fail[i] = vt.Ev{"err": rerr != nil && !hung, "panic": pan, "hung": hung}
+		scribble(buf[:cap(buf)])
+	}
+	for _, i := range order {
+		e := pk.ev("signed")
+		e["seed"], e["keyVariant"] = vt.Hex(pk.seed), pk.variant
+		e["kind"], e["msg"], e["sig"], e["sig0"] = "retained", vt.Hex(msgs[i]), vt.Hex(sigs[i]), vt.Hex(sigs0[i])
+		e["err"], e["panic"], e["hung"] = fail[i]["err"], fail[i]["panic"], fail[i]["hung"]
+		pk.out.Emit(e)
+		if sigs[i] != nil {
+			in := append(buf[:0], msgs[i]...)
+			pk.verify(sigs[i], in, "retained-signature")
+			scribble(buf[:cap(buf)])
+		}
+	}
+	if pre == nil || ps == nil {
+		return
+	}
+	// ---- prehash path: compute all prehashes, then sign them in another order, then verify each against its own message
+	digs, digs0 := make([][]byte, n), make([][]byte, n)
+	for i := range msgs {
+		in := append(buf[:0], msgs[i]...)
+		var d []byte
+		var err error
+		pan, _ := vt.Try(func() { d, err = pre.ComputePrehash(in) })
+		if !pan && err == nil {
+			digs[i], digs0[i] = d, clone(d)
+		}
+		fail[i] = vt.Ev{"err": err != nil, "panic": pan}
+		scribble(buf[:cap(buf)])
+	}
+	for i := range msgs {
+		e := pk.ev("prehash")
+		e["kind"], e["msg"], e["out"], e["out2"], e["err"], e["panic"] = "retained", vt.Hex(msgs[i]), vt.Hex(digs0[i]), vt.Hex(digs[i]), fail[i]["err"], fail[i]["panic"]
+		pk.out.Emit(e)
+	}
+	psigs, psigs0 := make([][]byte, n), make([][]byte, n)
+	for _, i := range order {
+		if digs[i] == nil {
+			continue
+		}
+		var res []byte
+		var rerr error
+		pan, hung := guarded(func() { res, rerr = ps.SignPrehash(digs[i]) })
+		if !hung && !pan && rerr == nil {
+			psigs[i], psigs0[i] = res, clone(res)
+		}
+		fail[i] = vt.Ev{"err": rerr != nil && !hung, "panic": pan, "hung": hung}
+	}
+	for i := range msgs {
+		if digs[i] == nil {
+			continue
+		}
+		e := pk.ev("signed")
+		e["seed"], e["keyVariant"] = vt.Hex(pk.seed), pk.variant
+		if pk.variant == "TINK" { // SignPrehash returns the bare ML-DSA signature
+			e["variant"], e["id"] = "NO_PREFIX", "00000000"
+		}
+		e["kind"], e["msg"], e["sig"], e["sig0"] = "prehash-retained", vt.Hex(msgs[i]), vt.Hex(psigs[i]), vt.Hex(psigs0[i])
+		e["err"], e["panic"], e["hung"] = fail[i]["err"], fail[i]["panic"], fail[i]["hung"]
+		pk.out.Emit(e)
+		if psigs[i] != nil {
+			full := append(clone(pk.priv.OutputPrefix()), psigs[i]...)
+			pk.verify(full, msgs[i], "prehash-retained-signature")
+		}
+	}
 }
 
 func msgOf(r *rand.Rand, i int) []byte {
@@ -670,6 +783,7 @@ func internalRoutes(out *sink, p pset, r *rand.Rand, full bool) {
 			}(i, cr)
 		}
 		// deterministic and known-randomness signatures: byte-identical to Sign_internal
+		ibuf := make([]byte, 0, 4096)
 		var first []byte
 		var firstMp []byte
 		for si := 0; si < nDet; si++ {
@@ -683,12 +797,15 @@ func internalRoutes(out *sink, p pset, r *rand.Rand, full bool) {
 			if si >= 2 {
 				r.Read(rnd[:])
 			}
-			sig := kc.signEv(mp, rnd, "known-rnd")
+			// the message travels through one driver-owned buffer that is scribbled after every call
+			sig := kc.signEv(append(ibuf[:0], mp...), rnd, "known-rnd")
+			scribble(ibuf[:cap(ibuf)])
 			if sig != nil && first == nil {
 				first, firstMp = sig, mp
 			}
 			if sig != nil {
-				kc.verifyEv(mp, sig, "own-signature")
+				kc.verifyEv(append(ibuf[:0], mp...), sig, "own-signature")
+				scribble(ibuf[:cap(ibuf)])
 			}
 		}
 		if first == nil {
@@ -748,6 +865,8 @@ func internalRoutes(out *sink, p pset, r *rand.Rand, full bool) {
 			out.Emit(vt.Ev{"ev": "note", "what": "crafted", "set": name, "kind": c.kind, "zNorm": c.a.zNorm, "r0Norm": c.a.r0Norm, "ct0Norm": c.a.ct0Norm, "ones": c.a.ones})
 			kc.verifyEv(c.mp, c.a.sig, "crafted:"+c.kind)
 		}
+		// the encoded keys obtained at key generation, as the retained slices read after all later calls
+		out.Emit(vt.Ev{"ev": "keygen", "set": name, "route": "internal", "kind": "retained", "seed": vt.Hex(seed[:]), "pk": vt.Hex(kc.pkB), "sk": vt.Hex(kc.skB), "panic": false})
 		// the real signer on (message, randomness) pairs whose loop passes through a boundary candidate
 		for _, c := range loops {
 			if c.rnd == nil {
@@ -807,6 +926,8 @@ func publicRoutes(out *sink, p pset, r *rand.Rand, full bool) {
 		b[pre+r.Intn(p.sigLen)] ^= 1 << uint(r.Intn(8))
 		pk.verify(b, msg, "flip")
 		if variant == "NO_PREFIX" {
+			pk.retained(r, nil, nil)
+			pk.retainedKey()
 			continue
 		}
 		// external mu: ComputePrehash on the public handle, SignPrehash on the private handle; the result
@@ -817,6 +938,7 @@ func publicRoutes(out *sink, p pset, r *rand.Rand, full bool) {
 		ps, err2 := signprehash.NewPrehashSigner(pk.handle)
 		if err1 != nil || err2 != nil {
 			out.Emit(vt.Ev{"ev": "note", "what": "prehash primitives refused", "set": p.name, "variant": variant, "e1": fmt.Sprint(err1), "e2": fmt.Sprint(err2)})
+			pk.retained(r, nil, nil)
 			continue
 		}
 		for i := 0; i < n; i++ {
@@ -862,7 +984,14 @@ func publicRoutes(out *sink, p pset, r *rand.Rand, full bool) {
 			_, e2 := ps.SignPrehash(bad)
 			out.Emit(vt.Ev{"ev": "note", "what": "SignPrehash on foreign prehash", "startByteRefused": e1 != nil, "keyIDRefused": e2 != nil})
 		}
+		pk.retained(r, pre2, ps)
+		pk.retainedKey()
 	}
+}
+
+// retainedKey logs the public key bytes obtained right after key creation again, after all other use of the key.
+func (pk *pubKey) retainedKey() {
+	pk.out.Emit(vt.Ev{"ev": "keygen", "set": pk.name, "route": "public", "kind": "retained", "seed": vt.Hex(pk.seed), "pk": vt.Hex(pk.pkB), "sk": "", "panic": false})
 }
 
 type classical struct {
@@ -959,10 +1088,14 @@ func compositeRoutes(out *sink, r *rand.Rand, full bool) {
 			mlPub, _ := mlPriv.PublicKey()
 			pkM := mlPub.(*mldsa.PublicKey).KeyBytes()
 			emit := func(sig, msg []byte, kind string) {
-				var err error
-				pan, _ := vt.Try(func() { err = verifier.Verify(sig, msg) })
+				var err, err2 error
+				msgH, sigH := vt.Hex(msg), vt.Hex(sig)
+				pan, _ := vt.Try(func() {
+					err = verifier.Verify(sig, msg)
+					err2 = verifier.Verify(sig, msg)
+				})
 				out.Emit(vt.Ev{"ev": "composite", "inst": inst, "alg": cb.c.alg, "variant": variant, "id": vt.ID4(id), "kind": kind,
-					"pkM": vt.Hex(pkM), "pkC": vt.Hex(pkC), "msg": vt.Hex(msg), "sig": vt.Hex(sig), "ok": err == nil && !pan, "panic": pan})
+					"pkM": vt.Hex(pkM), "pkC": vt.Hex(pkC), "msg": msgH, "sig": sigH, "ok": err == nil && !pan, "ok2": err2 == nil && !pan, "panic": pan})
 			}
 			msg := msgOf(r, 2+vi)
 			var sig, res []byte
